@@ -474,4 +474,137 @@ Proof.
   - apply nodup_remove. exact E.
 Qed.
 
+
+(* ---------------------------------------------------------------- the resume pass over the unblocked streams *)
+Lemma wt_chain : forall sid g evs, Forall (is_wt sid) evs -> chain sid g evs /\ gl g evs = g.
+Proof.
+  intros sid g. induction evs as [|e t IH]; intro H; [split; [exact Logic.I|reflexivity]|].
+  inversion H as [|x y H1 H2]; subst. destruct H1 as (s & d & f & ->). destruct (IH H2) as (I1 & I2).
+  cbn [H3EventsProofs.chain]. unfold H3EventsProofs.gl in *. cbn [fold_left gstep ev_sid].
+  split; [|exact I2]. split; [reflexivity|]. split; [|exact I1]. split; [exact Logic.I|cbn [ev_fin]; discriminate].
+Qed.
+
+Lemma unblock_post : forall Q unb c evs0 hist rest evs c',
+  CI c hist rest -> unblock fx (with_validators hdrs Q) c unb evs0 = SVal evs c' ->
+  exists e1, evs = evs0 ++ e1 /\ all_ok hist e1 /\ CI c' (hist ++ e1) rest.
+Proof.
+  intros Q. induction unb as [|sid u IH]; intros c evs0 hist rest evs c' HC H; cbn [unblock] in H.
+  - inversion H; subst. exists []. rewrite !app_nil_r. split; [reflexivity|]. split; [exact Logic.I|exact HC].
+  - destruct (find_stream sid (c_streams c)) as [s|] eqn:F; [|discriminate].
+    pose proof HC as (A & _ & _ & D & _). destruct (A sid s F) as (S1 & S2 & S3 & S4).
+    pose proof (find_id _ _ _ F) as Hid.
+    rewrite Hpb, D in H.
+    set (g := ghost_of hist sid) in *.
+    assert (STEP : forall sF eF, chain sid g eF -> sinv (gl g eF) sF -> cur_ok sF -> kinv sF -> s_id sF = sid ->
+              (H3Parse.s_ended sF = true -> H3Parse.s_ended s = true) ->
+              unblock fx (with_validators hdrs Q) (set_streams c (put_stream sF (c_streams c))) u (evs0 ++ eF) = SVal evs c' ->
+              exists e1, evs = evs0 ++ e1 /\ all_ok hist e1 /\ CI c' (hist ++ e1) rest).
+    { intros sF eF C1 I1 K1 K2 I2 E1 HU.
+      destruct (CI_put c hist rest sF eF sid HC I2 C1 I1 K1 K2 (fun e => S4 (E1 e))) as (HC2 & OK2).
+      destruct (IH _ _ _ _ _ _ HC2 HU) as (e1 & E2 & O3 & HC3).
+      exists (eF ++ e1). split; [rewrite E2, app_assoc; reflexivity|].
+      split; [apply all_ok_app; assumption|]. rewrite app_assoc. exact HC3. }
+    match type of H with context [handle_rp_frame ?a ?b ?c0 ?d ?e ?f ?g'] =>
+      destruct (handle_rp_frame a b c0 d e f g') as [e1 s1|s1|code|k] eqn:HH end; try discriminate.
+    destruct (handle_post hdrs client fx Q _ _ _ _ g e1 s1 S1 HH) as (C1 & I1). rewrite Hid in C1.
+    destruct (handle_frame _ _ _ _ _ _ _ _ _ HH) as (F1 & F2 & F3 & _ & F5 & F6 & F7).
+    assert (K1 : cur_ok s1).
+    { intros n E. rewrite F2 in E. destruct S3 as (K3 & K4). destruct (s_blocked s) eqn:B.
+      - rewrite (K4 eq_refl) in E. discriminate.
+      - rewrite (K3 eq_refl) in F7. rewrite F7 by lia. exact (S2 n E). }
+    set (s2 := set_btype (set_blocked s1 false) None) in *.
+    assert (I2 : sinv (gl g e1) s2) by (eapply sinv_core; [| | |exact I1]; reflexivity).
+    assert (K2 : cur_ok s2) by (intros n E; exact (K1 n E)).
+    assert (K3 : kinv s2) by (split; [reflexivity|intro E; discriminate]).
+    assert (Hid2 : s_id s2 = sid) by (unfold s2; simp_proj; congruence).
+    assert (En2 : H3Parse.s_ended s2 = H3Parse.s_ended s) by (unfold s2; simp_proj; congruence).
+    destruct (negb (is_nil (s_buf s2))).
+    + match type of H with context [rq_recv ?a ?b ?c0 ?d ?e ?f] =>
+        destruct (rq_recv a b c0 d e f) as [e2 s3|code|k] eqn:HR end; try discriminate.
+      destruct (rq_recv_post hdrs client fx Q _ _ _ (gl g e1) e2 s3 I2 K2 HR) as (C2 & I3 & K4 & Hid3 & En3).
+      pose proof (rq_recv_k _ _ _ _ _ _ _ _ K3 HR) as K5.
+      eapply (STEP s3 (e1 ++ e2)); [| | | | | |exact H]; try assumption.
+      * apply chain_app; [exact C1|rewrite <- Hid2; exact C2].
+      * rewrite H3EventsProofs.gl_app. exact I3.
+      * congruence.
+      * rewrite En3, En2. destruct (H3Parse.s_ended s); auto.
+    + eapply (STEP s2 e1); [| | | | | |exact H]; try assumption. congruence.
+Qed.
+
+(* ---------------------------------------------------------------- _receive_stream_data *)
+Lemma recv0_post : forall Q c sid data fin hist rest evs c',
+  CI c hist (QStream sid data fin :: rest) -> (fin = true -> no_stream sid rest) ->
+  receive_stream_data0 fx (with_validators hdrs Q) c sid data fin = SVal evs c' ->
+  all_ok hist evs /\ CI c' (hist ++ evs) rest.
+Proof.
+  intros Q c sid data fin hist rest evs c' HC0 Hfin H. unfold receive_stream_data0 in H.
+  destruct (get_or_create c sid) as [s0 c1] eqn:G.
+  assert (T : touches sid (QStream sid data fin)) by (left; eexists _, _; reflexivity).
+  destruct (CI_goc _ _ _ _ _ _ _ HC0 T G) as (HC1' & F & _ & _).
+  pose proof (CI_tail _ _ _ _ HC1') as HC1. clear HC1' HC0 G.
+  pose proof HC1 as (A & _ & _ & D & _). destruct (A sid s0 F) as (S1 & S2 & S3 & S4).
+  pose proof (find_id _ _ _ F) as Hid.
+  set (g := ghost_of hist sid) in *.
+  assert (PUT : forall c2 sF eF, cframe c1 c2 -> chain sid g eF -> sinv (gl g eF) sF -> cur_ok sF -> kinv sF -> s_id sF = sid ->
+            (H3Parse.s_ended sF = true -> H3Parse.s_ended s0 = true \/ fin = true) ->
+            CI (set_streams c2 (put_stream sF (c_streams c2))) (hist ++ eF) rest /\ all_ok hist eF).
+  { intros c2 sF eF (Q1 & Q2 & Q3 & _) C1 I1 K1 K2 I2 E1.
+    assert (HC2 : CI c2 hist rest) by (eapply CI_same; [exact Q1|exact Q3|exact Q2|exact HC1]).
+    eapply CI_put; eauto. intro E. destruct (E1 E) as [E2|E2]; auto. }
+  destruct (is_uni sid).
+  - set (st := H3Parse.set_ended (set_buf s0 (s_buf s0 ++ data)) (H3Parse.s_ended s0 || fin)) in *.
+    assert (SA : same_all s0 st \/ True) by (right; exact Logic.I). clear SA.
+    match type of H with context [uni_loop ?f ?a ?b ?c0 ?d ?e ?b0 ?u] =>
+      pose proof (uni_loop_frame a b f c0 d e b0 u) as UF;
+      destruct (uni_loop f a b c0 d e b0 u) as [st' c2 unb|evs1 st' c2|k c2|k] eqn:UL end;
+      try discriminate; cbn [uni_frame] in UF.
+    + (* the loop ended: resume the streams the encoder stream unblocked *)
+      destruct UF as ((U1 & U2 & U3 & U4 & U5 & U6 & U7 & U8) & CF).
+      destruct (PUT c2 st' [] CF Logic.I) as (HC2 & _).
+      * eapply sinv_core; [| | |exact S1]; assumption.
+      * intros n E. rewrite U4 in E. rewrite U1. exact (S2 n E).
+      * destruct S3 as (K3 & K4). split; [rewrite U7, U8; exact K3|rewrite U7, U4; exact K4].
+      * rewrite U5. exact Hid.
+      * rewrite U6. unfold st. simp_proj. intro E. destruct (H3Parse.s_ended s0); auto.
+      * rewrite app_nil_r in HC2. destruct (unblock_post Q _ _ _ _ _ _ _ HC2 H) as (e1 & E1 & O1 & HC3).
+        cbn [app] in E1. subst e1. auto.
+    + destruct UF as ((U1 & U2 & U3 & U4 & U5 & U6 & U7 & U8) & CF & WT).
+      assert (I0 : sinv g st') by (eapply sinv_core; [| | |exact S1]; assumption).
+      assert (K0 : cur_ok st') by (intros n E; rewrite U4 in E; rewrite U1; exact (S2 n E)).
+      assert (K1 : kinv st').
+      { destruct S3 as (K3 & K4). split; [rewrite U7, U8; exact K3|rewrite U7, U4; exact K4]. }
+      assert (I1 : s_id st' = sid) by (rewrite U5; exact Hid).
+      assert (E0 : H3Parse.s_ended st' = true -> H3Parse.s_ended s0 = true \/ fin = true).
+      { rewrite U6. unfold st. simp_proj. intro E. destruct (H3Parse.s_ended s0); auto. }
+      assert (ELSE : SVal evs1 (set_streams c2 (put_stream st' (c_streams c2))) = SVal evs c' ->
+                     all_ok hist evs /\ CI c' (hist ++ evs) rest).
+      { intro HE. inversion HE; subst evs c'. unfold st in WT. simp_proj. rewrite Hid in WT.
+        destruct (wt_chain sid g evs1 WT) as (W1 & W2).
+        destruct (PUT c2 st' evs1 CF W1) as (P1 & P2); auto. rewrite W2. exact I0. }
+      assert (PUSH : match rq_recv fx (with_validators hdrs Q) (c_client c2) st' [] fin with
+                     | RVal e st'' => SVal e (set_streams c2 (put_stream st'' (c_streams c2)))
+                     | RErr k => SErr k c2
+                     | RExn k => SExn k
+                     end = SVal evs c' -> all_ok hist evs /\ CI c' (hist ++ evs) rest).
+      { intro HE. destruct CF as (Q1 & Q2 & Q3 & Q4). rewrite Q2, D in HE.
+        destruct (rq_recv fx (with_validators hdrs Q) client st' [] fin) as [e st''|code|k] eqn:HR; try discriminate.
+        inversion HE; subst e c'.
+        destruct (rq_recv_post hdrs client fx Q _ _ _ g evs st'' I0 K0 HR) as (C2 & I3 & K4 & Hid3 & En3).
+        pose proof (rq_recv_k _ _ _ _ _ _ _ _ K1 HR) as K5.
+        destruct (PUT c2 st'' evs (conj Q1 (conj Q2 (conj Q3 Q4)))) as (P1 & P2); auto.
+        - rewrite <- I1. exact C2.
+        - congruence.
+        - rewrite En3. intro E. destruct (H3Parse.s_ended st') eqn:E2; [apply E0; reflexivity|]. right. exact E. }
+      destruct (s_stype st') as [[|[p|p|]|p]|]; auto.
+  - rewrite D in H.
+    destruct (rq_recv fx (with_validators hdrs Q) client s0 data fin) as [e st'|code|k] eqn:HR; try discriminate.
+    inversion H; subst e c'.
+    destruct (rq_recv_post hdrs client fx Q _ _ _ g evs st' S1 S2 HR) as (C2 & I3 & K4 & Hid3 & En3).
+    pose proof (rq_recv_k _ _ _ _ _ _ _ _ S3 HR) as K5.
+    destruct (PUT c1 st' evs (cframe_refl c1)) as (P1 & P2); auto.
+    + rewrite <- Hid. exact C2.
+    + congruence.
+    + rewrite En3. intro E. destruct (H3Parse.s_ended s0); auto.
+Qed.
+
 End Conn.
